@@ -514,6 +514,7 @@ def get_model_parser(top_rule, comments_model, **kwargs):
                     self._replace_user_attr_methods_for_class(user_class)
                 else:
                     user_class._tx_instrumented += 1
+            self._user_attr_methods_replaced = True
 
         def _drop_user_obj_attrs(self):
             """
@@ -529,6 +530,13 @@ def get_model_parser(top_rule, comments_model, **kwargs):
             Restore original get/set/del(attr) methods on user
             classes.
             """
+            if not getattr(self, "_user_attr_methods_replaced", False):
+                # Already restored for this load (e.g. the construction was
+                # ended and a constructor or object processor failed after
+                # that): do not undo the replacement done by an enclosing
+                # load.
+                return
+            self._user_attr_methods_replaced = False
             for user_class in self.metamodel.user_classes.values():
                 if hasattr(user_class, "_tx_instrumented"):
                     user_class._tx_instrumented -= 1
